@@ -421,6 +421,9 @@ func TestPropCLI(t *testing.T) {
 			}
 		}
 		cl = append(cl, fmt.Sprintf("cli:distance:%d", c.Dist), fmt.Sprintf("cli:ratio:%v", c.Ratio), fmt.Sprintf("cli:batch-size:%d", c.BatchSize))
+		if internal {
+			cl = append(cl, "cli:nontrivial")
+		}
 		evid.Eval("cli", evid.Hash(hashRecs(recs), c.Dist, c.Ratio, c.BatchSize, fmt.Sprint(c.Runs)), internal, nil, cl...)
 		evid.Class("cli_runs", int64(len(c.Runs)+1))
 		if err := checkCLI(c); err != nil {
